@@ -72,8 +72,12 @@ type world struct {
 	dyn          *limitSpec // dynamic limit filter (nil = none or callback returns nil)
 	dynNilFilter bool
 	dynContinue  bool
-	seed         []interface{}
-	ops          []op
+	// dynPerTable: the dynamic limit only restricts this world's table (its callback answers
+	// nil for every other table); "OtherQuery" calls then read another table through the same
+	// handle and context in between
+	dynPerTable bool
+	seed        []interface{}
+	ops         []op
 }
 
 func shardValue(table string, n int, variant int) interface{} {
@@ -170,7 +174,11 @@ func gen(t *rapid.T) world {
 	nops := rapid.IntRange(4, 14).Draw(t, "nops")
 	nextID := 100
 	group := 0
+	w.dynPerTable = w.dyn != nil && len(w.shard.cols) == 0 && rapid.Bool().Draw(t, "dynpertable")
 	for i := 0; i < nops; i++ {
+		if w.dynPerTable && rapid.IntRange(0, 3).Draw(t, "otherquery") == 0 {
+			w.ops = append(w.ops, op{kind: "OtherQuery", descr: "Query{} on another table (no limit applies there)"})
+		}
 		o := op{kind: rapid.SampledFrom([]string{"Query", "Query", "QueryRow", "Count", "InsertRow", "InsertRows", "UpsertRow", "UpsertRows", "UpdateRow", "DeleteRow"}).Draw(t, "kind")}
 		if w.table == "row_a" && (o.kind == "UpsertRow" || o.kind == "UpsertRows") {
 			o.kind = "InsertRow"
@@ -482,7 +490,7 @@ func check(w world) (nt bool, labels []string, sig string, err error) {
 	if w.dyn != nil {
 		dl := sqlgen.DynamicLimit{
 			GetLimitFilter: func(ctx context.Context, table string) sqlgen.Filter {
-				if w.dynNilFilter {
+				if w.dynNilFilter || (w.dynPerTable && table != w.table) {
 					return nil
 				}
 				return w.dyn.filter()
@@ -564,6 +572,15 @@ func check(w world) (nt bool, labels []string, sig string, err error) {
 			if err != nil && !isLimitErr(err) {
 				err = nil // no rows / more than one
 			}
+		case "OtherQuery":
+			other := sw.Tables[0]
+			if other == w.table {
+				other = sw.Tables[1]
+			}
+			res := reflect.New(reflect.SliceOf(reflect.PtrTo(sw.Types[other])))
+			// (whether this read is let through is not what the property is about)
+			db.Query(c, res.Interface(), sqlgen.Filter{}, nil)
+			return nil
 		case "Count":
 			_, err = db.Count(c, reflect.New(typ).Interface(), o.filter)
 		case "InsertRow":
@@ -601,6 +618,9 @@ func check(w world) (nt bool, labels []string, sig string, err error) {
 				continue // BEGIN/COMMIT/ROLLBACK
 			}
 			real++
+			if le.Stmt.Table != w.table {
+				continue // another table: the limits of this world do not apply to it
+			}
 			for _, lim := range binding {
 				if ok, why := confined(eng, le, lim); !ok {
 					return "unconfined", fmt.Errorf("statement reached the database outside the limit %s: %s\n  %s args %v\n  during: %s", lim.descr, why, le.SQL, le.Args, descr)
